@@ -12,6 +12,7 @@ formats, comments, hyperlinks, tables) is covered by the differential oracle of
 -/
 import XlModel.Lemmas.Settings
 import XlModel.Lemmas.CondFmt
+import XlModel.Lemmas.DvDelete
 
 namespace XlModel.Props.C18
 open XlModel XlModel.Settings
@@ -590,6 +591,85 @@ theorem protect_replaces_example :
     unprotect .workbook H s2 (some "anything".toList) = (none, true) := by decide
 
 end ProtectionThms
+
+/-! ## DeleteDataValidation: exactly the covered cells lose their rule -/
+
+section DvDeleteThms
+open XlModel.DvDelete
+
+/-- `dv_delete_exactly`, clause "deleting … removes exactly that item" for data validations:
+for stored rules whose sqref lists every cell once and top-to-bottom inside each column
+(`Clean`: what a single range, disjoint ascending areas, or an earlier delete produce), after
+`DeleteDataValidation(range)`
+* every rule denotes exactly its former cells outside the range,
+* a rule survives iff it has a cell outside the range — in particular a rule wholly inside the
+  range never survives, wherever it stands in the list (the class of seeded change C18d/2),
+* a cell is covered afterwards iff it was covered before and is not in the range. -/
+theorem dv_delete_exactly (rules : List (List Cell)) (del : List Cell) (hc : ∀ r ∈ rules, Clean r) :
+    (∀ r ∈ rules, ∀ a, a ∈ rewriteRule r del ↔ a ∈ r ∧ a ∉ del) ∧
+    (∀ r ∈ rules, (rewriteRule r del ∈ deleteRules rules del ↔ ∃ a ∈ r, a ∉ del)) ∧
+    (∀ a, (∃ r' ∈ deleteRules rules del, a ∈ r') ↔ (∃ r ∈ rules, a ∈ r) ∧ a ∉ del) := by
+  have h1 : ∀ r ∈ rules, ∀ a, a ∈ rewriteRule r del ↔ a ∈ r ∧ a ∉ del :=
+    fun r hr a => mem_rewriteRule r del (hc r hr) a
+  refine ⟨h1, ?_, ?_⟩
+  · intro r hr
+    unfold deleteRules
+    simp only [List.mem_filter, List.mem_map]
+    constructor
+    · intro ⟨_, hne⟩
+      cases hrw : rewriteRule r del with
+      | nil => simp [hrw] at hne
+      | cons a t =>
+        have : a ∈ rewriteRule r del := by rw [hrw]; simp
+        exact ⟨a, ((h1 r hr a).1 this).1, ((h1 r hr a).1 this).2⟩
+    · intro ⟨a, ha, hd⟩
+      refine ⟨⟨r, hr, rfl⟩, ?_⟩
+      have : a ∈ rewriteRule r del := (h1 r hr a).2 ⟨ha, hd⟩
+      cases hrw : rewriteRule r del with
+      | nil => rw [hrw] at this; simp at this
+      | cons _ _ => rfl
+  · intro a
+    unfold deleteRules
+    constructor
+    · intro ⟨r', hr', ha⟩
+      simp only [List.mem_filter, List.mem_map] at hr'
+      obtain ⟨⟨r, hr, e⟩, _⟩ := hr'
+      subst e
+      exact ⟨⟨r, hr, ((h1 r hr a).1 ha).1⟩, ((h1 r hr a).1 ha).2⟩
+    · intro ⟨⟨r, hr, ha⟩, hd⟩
+      have hm : a ∈ rewriteRule r del := (h1 r hr a).2 ⟨ha, hd⟩
+      refine ⟨rewriteRule r del, ?_, hm⟩
+      simp only [List.mem_filter, List.mem_map]
+      refine ⟨⟨r, hr, rfl⟩, ?_⟩
+      cases hrw : rewriteRule r del with
+      | nil => rw [hrw] at hm; simp at hm
+      | cons _ _ => rfl
+
+/-- the order of the surviving rules is the stored order (the result is a filtered map) -/
+theorem dv_delete_keeps_order (rules : List (List Cell)) (del : List Cell) :
+    deleteRules rules del = (rules.map (fun r => rewriteRule r del)).filter (fun r => !r.isEmpty) := rfl
+
+/-- the seeded history C18d/2 in the model: rules A1:A3, B1:B3, C1:C3, E1:E5; delete A1:C3
+leaves exactly the rule on E1:E5 -/
+theorem dv_delete_adjacent_example :
+    (match flatSqref "A1:A3".toList, flatSqref "B1:B3".toList, flatSqref "C1:C3".toList,
+           flatSqref "E1:E5".toList, flatSqref "A1:C3".toList with
+     | .ok a, .ok b, .ok c, .ok e, .ok d => deleteRules [a, b, c, e] d == [e]
+     | _, _, _, _, _ => false) = true := by decide +kernel
+
+/-- finding dvdel:areas-not-ascending: the full statement fails without `Clean`: a rule whose
+areas are written bottom-up ("A5:A6 A1:A2") is rewritten by ANY delete call — even one that
+touches none of its cells — to the span A2:A5: it gains A3, A4 and loses A1, A6
+(`squashSqref` assumes increasing rows) -/
+theorem finding_dv_delete_descending_areas :
+    rewriteRule [(1, 5), (1, 6), (1, 1), (1, 2)] [(3, 9)] = [(1, 2), (1, 3), (1, 4), (1, 5)] := by decide +kernel
+
+/-- finding dvdel:overlapping-areas: a cell listed twice by a rule ("A1:A2 A2" lists A2 twice)
+is removed only once: after deleting A2 the rule still covers A2 -/
+theorem finding_dv_delete_overlapping_areas :
+    (1, 2) ∈ rewriteRule [(1, 1), (1, 2), (1, 2)] [(1, 2)] := by decide +kernel
+
+end DvDeleteThms
 
 /-! ## conditional formats: type tables and list semantics -/
 
